@@ -76,7 +76,12 @@ def run(ctx) -> None:
     from . import c16
     ctx.rule("R05.8", "groupby: pulling an item and computing its key are one step (after a failed or cancelled key call the item "
                       "is not left behind as if it had been keyed) (R16.3, shared)")
-    c16.publish_rule(ctx, c16.Names(ctx), "R05.8")
+    from .common import Relabel
+    ctx.rule("R05.12", "groupby: a group the parent has moved past ends at once, without pulling from the source or calling key (R16.1, shared)")
+    if c16.cursor_is_single_slot(ctx, "R05.8"):
+        names16 = c16.Names(ctx)
+        c16.publish_rule(ctx, names16, "R05.8")
+        c16.r16_1_3_group(Relabel(ctx, "R05.12", only=("R16.1",)), names16)
     r05_9(ctx)
     from . import lockstep
     lockstep.zip_longest_table(ctx, "R05.10")  # (shared with R01.11: rows and items taken per source)
